@@ -211,6 +211,13 @@ Example C18_ledger_nontrivial :
   burst_of lim (KOp 1 Mount) + rate_of lim (KOp 1 Mount) * (end_time 0 ex_evs - 0) == 2 + (10 # 60) * 20.
 Proof. vm_compute. repeat split. Qed.
 
+(* why rate >= 0 is a hypothesis: RateLimiterConfig is not validated, and with a negative rate the statement is false
+   (one request admitted at creation, bound 1 + (-1) * 10 < 1 ten seconds later) *)
+Example C18_negative_rate_excluded :
+  let ts := [0; 10] in
+  sorted_from 0 ts /\ ~ (inject_Z (nadm (fst (TokenBucket.run (mk (-1) 1 0) ts))) <= 1 + (-1) * (List.last ts 0 - 0)).
+Proof. cbn zeta. split; [cbn; repeat split; discriminate|]. vm_compute. intros H. apply H. reflexivity. Qed.
+
 Print Assumptions C18_bound.
 Print Assumptions C18_bound_invariant.
 Print Assumptions C18_bucket_decision.
